@@ -526,6 +526,72 @@ pub fn run(args: &Args, rep: &mut Report) {
         let e = gen_assign(&mut ctx.rng);
         ctx.check(&e, "assign");
     }
+    // (e) the cache serves what a fresh compilation gives, also after values built from it were changed in place:
+    // one data model (one compilation cache); `va = <literal>` (source id S1) - read - change elements of `va` in
+    // place (source ids S2…) - `va = <literal>` again from the cache - read: every round must give the literal
+    if args.shard == 0 || args.miri() {
+        let cases: Vec<(&str, Vec<&str>)> = vec![
+            ("[0, 0]", vec!["va[0] = va[0] + 1"]),
+            ("[0, 0, 7]", vec!["va[2] = 'x'", "va[0] = va[2]"]),
+            ("{'n': 0}", vec!["va.n = va.n + 5"]),
+            ("[[1], 'x']", vec!["va[0][0] = 9", "va[1] = 'y'"]),
+            ("{'a': [1, 2], 'b': {'c': 3}}", vec!["va.b.c = 4", "va.a[1] = 7"]),
+            ("[1.5, 'str', true]", vec!["va[1] = 'other'", "va[2] = false", "va[0] = va[0] * 2"]),
+            ("[[0, 0], [0, 0]]", vec!["va[1][1] = va[1][1] + 1", "va[0] = va[1]"]),
+            ("{'k': 'v', 'l': [null]}", vec!["va.k = va.k + '!'", "va.l[0] = 1"]),
+        ];
+        for (ci, (lit, muts)) in cases.iter().enumerate() {
+            if !args.keep(ci, 3) {
+                continue;
+            }
+            let gd = new_global(&default_store());
+            let mut dm = RFsmExpressionDatamodel::new(gd.clone());
+            let fresh = {
+                let g2 = new_global(&default_store());
+                eval_fresh(lit, &g2)
+            };
+            let want = match &fresh {
+                Real::Val(v) => v.clone(),
+                other => {
+                    ctx.rep.notes.push(format!("literal {} does not evaluate: {}", lit, other.show()));
+                    continue;
+                }
+            };
+            let base = 2_000_000 + ci * 100;
+            let assign = format!("va = {}", lit);
+            for round in 0..4 {
+                ctx.rep.evaluations += 1;
+                ctx.rep.count("family_cache_purity_rounds", 1);
+                let r = eval_cached(&mut dm, &assign, base);
+                let got = read_store(&gd).ok().and_then(|s| s.get("va").cloned());
+                let ok = matches!(&got, Some(v) if v.same(&want)) && !matches!(r, Real::Err(_) | Real::Panic(_));
+                if !ok {
+                    ctx.rep.violation(
+                        &format!("cache-literal-changed-by-in-place-write:{}", if lit.starts_with('{') { "map" } else { "array" }),
+                        &format!(
+                            "`{}` served from the compilation cache in round {} (after the in-place writes {:?} to the variable it had been assigned to) gives {} - a fresh compilation gives {}",
+                            assign,
+                            round,
+                            muts,
+                            got.as_ref().map(|v| v.show()).unwrap_or_else(|| r.show()),
+                            want.show()
+                        ),
+                        json!({"kind": "cache-purity", "expression": assign, "in_place_writes": muts, "round": round, "expected": want.show(), "observed": got.as_ref().map(|v| v.show())}),
+                    );
+                    break;
+                }
+                ctx.rep.nontrivial_key(&format!("purity:{}:{}", lit, round));
+                for (mi, m) in muts.iter().enumerate() {
+                    let _ = eval_cached(&mut dm, m, base + 1 + mi);
+                }
+                // the writes took effect on the variable (else the next round proves nothing)
+                match read_store(&gd).ok().and_then(|s| s.get("va").cloned()) {
+                    Some(v) if !v.same(&want) => ctx.rep.count("cache_purity_in_place_writes_effective", 1),
+                    _ => ctx.rep.count("cache_purity_in_place_writes_without_effect", 1),
+                }
+            }
+        }
+    }
     // (d) member names over an alphabet that includes e/E-prefixed identifiers
     if args.shard == 0 {
         for name in ["a", "e", "e1", "E", "Ex", "f", "_e", "ee", "x1e", "d2"] {
